@@ -303,10 +303,10 @@ static void run_case(char **ops, int nops)
 				if (!refset[SLOT(3)]) { printf("BAD"); continue; }
 				st = kdump_attr_ref_iter_start(c, &ref[SLOT(3)], &iter[is]);
 			} else {
-				if (!iterset[is]) { printf("BAD"); continue; }
+				if (!iterset[is]) { printf("NOITER"); continue; }
 				st = kdump_attr_iter_next(c, &iter[is]);
 			}
-			if (f[0][1] != 'N' && st == KDUMP_OK) iterset[is] = 1;
+			if (f[0][1] != 'N') iterset[is] = (st == KDUMP_OK);	/* a failed start: slot not started */
 			printf("%d:", (int) st);
 			if (st != KDUMP_OK || !iter[is].key)
 				printf("end:0:N:-");
